@@ -108,6 +108,11 @@ func RunTwo(rng *vk.Rand, idA, idB party.ID, startA, startB protocol.StartFunc, 
 func Outcomes(n *sim.Net) []Outcome {
 	var out []Outcome
 	for _, p := range n.Parties {
+		if n.AcceptHang != "" && p.ID == n.AcceptHangID {
+			// an Accept call of this party never returned and may hold the handler's lock: "not finished", unasked
+			out = append(out, Outcome{ID: p.ID, State: "hung", Err: fmt.Errorf("%s", n.AcceptHang), Closed: p.Closed})
+			continue
+		}
 		v, err := p.H.Result()
 		o := Outcome{ID: p.ID, State: sim.State(p.H), Value: v, Err: err, Closed: p.Closed}
 		out = append(out, o)
